@@ -175,6 +175,11 @@ func ixRandomWrite(r *rand.Rand, table string, salt int) adapt.Op {
 	}
 	switch c {
 	case 0, 1, 2, 3:
+		if r.Intn(8) == 0 {
+			// an item that consists of its key attributes only (an edge of an adjacency list): it still belongs to
+			// every index whose key attributes are table key attributes (the inverted index)
+			return adapt.Op{Kind: adapt.OpPut, Table: table, Item: val.Item{"h": ixV("h", h), "r": ixV("r", rg)}}
+		}
 		return adapt.Op{Kind: adapt.OpPut, Table: table, Item: ixItem(h, rg, maybe(r, ixGPool, 25), maybe(r, ixSPool, 25), salt)}
 	case 4:
 		return mon.SetUpdate(table, key, "g", ixV("g", mon.Pick(r, ixGPool)))
